@@ -41,8 +41,8 @@ where
     /*@*/     let r0 = self.rst0_(); let i0 = self.ist0_();
     /*@*/     &&& start_ok(r0)
     /*@*/     &&& inb(self.old_(), (r0.oc as usize)..(r0.oe as usize)) && inb(self.new_(), (r0.nc as usize)..(r0.ne as usize))
-    /*@*/     &&& (self.inner().relies() ==> rel_implies(self.rel(), self.inner().rely_rel()) && wf(i0) && i0.ro == i0.oc && i0.rn == i0.nc
-    /*@*/             && i0.oc == r0.oc && i0.nc == r0.nc && i0.oe >= r0.oe && i0.ne >= r0.ne && (i0.lvl >= 1 ==> r0.lvl >= 2))
+    /*@*/     &&& (self.inner().relies() ==> self.inner().rely_rel() == self.rel() && start_ok0(i0)
+    /*@*/             && i0.oc == r0.oc && i0.nc == r0.nc && i0.oe == r0.oe && i0.ne == r0.ne && i0.lvl == (if r0.lvl >= 2 { 2int } else { 0int }))
     /*@*/ }
     /*@*/ /// the compacted script has been replayed into the inner hook, which has been finished
     /*@*/ pub open spec fn done(&self) -> bool {
@@ -50,7 +50,7 @@ where
     /*@*/     &&& ops_full(self.old_(), self.new_(), ops, self.bcur(), false)
     /*@*/     &&& (r0.lvl >= 2 ==> ops_full(self.old_(), self.new_(), ops, self.bcur(), true))   // [C11]
     /*@*/     &&& esum(ops, ops.len() as int) == self.rst().eqs - r0.eqs
-    /*@*/     &&& self.inner().trace() == self.it0_() + evs_of(ops) + fin::<D>()
+    /*@*/     &&& self.inner().trace() == evs_of(ops) + fin::<D>()   // the inner hook was fresh
     /*@*/     &&& !self.inner().failed()
     /*@*/     &&& (self.inner().relies() ==> self.inner().rely_st() == run_rel(self.inner().rely_rel(), self.ist0_(), evs_of(ops) + fin::<D>()) && self.inner().rely_st().ok)
     /*@*/ }
@@ -58,12 +58,12 @@ where
     /*@*/     let rst = self.rst();
     /*@*/     &&& rst.ok && self.cfg_ok()
     /*@*/     &&& (!rst.fin ==> self.ops_() == ops_of(self.hist_()) && only_edi(self.hist_()) && !self.inner().failed()
-    /*@*/             && self.inner().trace() == self.it0_() && (self.inner().relies() ==> self.inner().rely_st() == self.ist0_()))
+    /*@*/             && self.inner().trace() == Seq::<Ev>::empty() && (self.inner().relies() ==> self.inner().rely_st() == self.ist0_()))
     /*@*/     &&& (rst.fin ==> only_edi(self.hist_().drop_last()) && self.done())
     /*@*/ }
     /*@*/ /// after creation (the creator then assigns rst0 / ist0 by ghost assignments)
     /*@*/ pub open spec fn fresh(&self) -> bool {
-    /*@*/     self.hist_() == Seq::<Ev>::empty() && self.ops_() == Seq::<DiffOp>::empty() && self.it0_() == self.inner().trace()
+    /*@*/     self.hist_() == Seq::<Ev>::empty() && self.ops_() == Seq::<DiffOp>::empty()
     /*@*/ }
     pub fn new(d: D, old: &'old Old, new: &'new New) -> (res: Self)
     /*@*/     ensures res.fresh(), res.inner() == d, res.old_() == old, res.new_() == new,
@@ -210,7 +210,6 @@ where
         /*@*/     assert(r0.lvl >= 2 ==> ops_full(self.old, self.new, ops1, bc, true));   // [C11]
         /*@*/     assert(ops1.take(0) =~= Seq::<DiffOp>::empty());
         /*@*/     assert(evs_of(Seq::<DiffOp>::empty()) =~= Seq::<Ev>::empty());
-        /*@*/     assert(pre.it0_() + Seq::<Ev>::empty() =~= pre.it0_());
         /*@*/     lemma_run_empty(irel, i0);
         /*@*/     assert(ops1.skip(0) =~= ops1);
         /*@*/ }
@@ -219,13 +218,13 @@ where
         /*@*/     invariant
         /*@*/         0 <= k <= ops1.len(), self.ops@ == ops1,
         /*@*/         it__.obeys_prophetic_iter_laws(), it__.remaining() == ops1.skip(k).map_values(|x: DiffOp| &x),
-        /*@*/         self.hist@ == pre.hist@, self.rst0@ == pre.rst0@, self.it0@ == pre.it0@, self.ist0@ == pre.ist0@, self.old == pre.old, self.new == pre.new,
+        /*@*/         self.hist@ == pre.hist@, self.rst0@ == pre.rst0@, self.ist0@ == pre.ist0@, self.old == pre.old, self.new == pre.new,
         /*@*/         rel == pre.rel(), r0 == pre.rst0_(), h == pre.hist_(), bc == pre.bcur(), irel == pre.inner().rely_rel(), i0 == pre.ist0_(),
         /*@*/         pre.inv(), wf(pre.rst()),
         /*@*/         ops_full(self.old, self.new, ops1, bc, false), r0.lvl >= 2 ==> ops_full(self.old, self.new, ops1, bc, true),
         /*@*/         esum(ops1, ops1.len() as int) == pre.rst().eqs - r0.eqs,
         /*@*/         !self.d.failed(), self.d.relies() == pre.inner().relies(), self.d.rely_rel() == irel, self.d.accepts_replace() == pre.inner().accepts_replace(),
-        /*@*/         self.d.trace() == pre.it0_() + evs_of(ops1.take(k)),
+        /*@*/         self.d.trace() == evs_of(ops1.take(k)),
         /*@*/         self.d.relies() ==> self.d.rely_st() == run_rel(irel, i0, evs_of(ops1.take(k))) && wf(self.d.rely_st())
         /*@*/             && self.d.rely_st().oc == bc.o0 + osum(ops1, k) && self.d.rely_st().nc == bc.n0 + nsum(ops1, k)
         /*@*/             && self.d.rely_st().oe == i0.oe && self.d.rely_st().ne == i0.ne && self.d.rely_st().lvl == i0.lvl,
@@ -247,7 +246,6 @@ where
             /*@*/     assert(ops1.take(k + 1) =~= ops1.take(k).push(ops1[k]));
             /*@*/     lemma_evs_of_push(ops1.take(k), ops1[k]);
             /*@*/     lemma_run_push(irel, i0, evs_of(ops1.take(k)), ev_of(ops1[k]));
-            /*@*/     assert((pre.it0_() + evs_of(ops1.take(k))).push(ev_of(ops1[k])) =~= pre.it0_() + evs_of(ops1.take(k)).push(ev_of(ops1[k])));
             /*@*/     assert(ops1.skip(k + 1) =~= ops1.skip(k).drop_first());
             /*@*/     k = k + 1;
             /*@*/ }
